@@ -35,6 +35,7 @@ type c17ProcCase struct {
 	Ops     int      `json:"ops"`
 	Prefix  int      `json:"prefix"`
 	Kinds   []string `json:"kinds"` // per worker: ref | ann | prop | mixed
+	Rounds  int      `json:"rounds,omitempty"` // the case is repeated on fresh repositories (creation races are short)
 }
 
 func c17ProcRefName(w, j int) string { return fmt.Sprintf("refs/heads/w%d-op%d", w, j) }
@@ -63,6 +64,17 @@ func TestC17Worker(t *testing.T) {
 	if err != nil {
 		fmt.Println("C17W harness-error", err)
 		return
+	}
+	// barrier: announce readiness, then wait for the parent's start signal so
+	// that all workers issue their first operation at the same moment
+	if bar := os.Getenv("VERIF_C17_BARRIER"); bar != "" {
+		_ = os.WriteFile(fmt.Sprintf("%s.ready%d", bar, w), nil, 0o644)
+		for i := 0; i < 600000; i++ {
+			if _, err := os.Stat(bar + ".go"); err == nil {
+				break
+			}
+			time.Sleep(100 * time.Microsecond)
+		}
 	}
 	h := func(s string) githash.Hash {
 		x, err := githash.NewHash(s)
@@ -130,6 +142,23 @@ func runC17ProcOnce(t *testing.T, s *kit.Session, c c17ProcCase) *kit.Failure {
 		bin = os.Args[0]
 	}
 	outs := make([]string, c.Workers)
+	barrier := filepath.Join(dir, "barrier")
+	go func() {
+		// release the workers once all of them are ready (or after 60 s, whatever they are doing)
+		for i := 0; i < 600; i++ {
+			ready := 0
+			for w := 0; w < c.Workers; w++ {
+				if _, err := os.Stat(fmt.Sprintf("%s.ready%d", barrier, w)); err == nil {
+					ready++
+				}
+			}
+			if ready == c.Workers {
+				break
+			}
+			time.Sleep(100 * time.Millisecond)
+		}
+		_ = os.WriteFile(barrier+".go", nil, 0o644)
+	}()
 	var wg sync.WaitGroup
 	for w := 0; w < c.Workers; w++ {
 		wg.Add(1)
@@ -137,7 +166,7 @@ func runC17ProcOnce(t *testing.T, s *kit.Session, c c17ProcCase) *kit.Failure {
 			defer wg.Done()
 			cmd := exec.Command(bin, "-test.run", "^TestC17Worker$", "-test.v")
 			cmd.Env = append(os.Environ(), "VERIF_C17_DIR="+st.Dir, "VERIF_C17_WORKER="+strconv.Itoa(w), "VERIF_C17_OPS="+strconv.Itoa(c.Ops),
-				"VERIF_C17_KIND="+c.Kinds[w%len(c.Kinds)], "VERIF_C17_IDS="+strings.Join(ids, ","), "VERIF_C17_FIRST="+firstID, "VERIF_OUT=", "VERIF_REPLAY=")
+				"VERIF_C17_KIND="+c.Kinds[w%len(c.Kinds)], "VERIF_C17_IDS="+strings.Join(ids, ","), "VERIF_C17_FIRST="+firstID, "VERIF_C17_BARRIER="+barrier, "VERIF_OUT=", "VERIF_REPLAY=")
 			var out bytes.Buffer
 			cmd.Stdout, cmd.Stderr = &out, &out
 			done := make(chan error, 1)
@@ -283,10 +312,11 @@ func genC17Proc(maxWorkers, maxOps int, emptyLog bool) func(rt *rapid.T) c17Proc
 	return func(rt *rapid.T) c17ProcCase {
 		c := genC17ProcN(rt, maxWorkers, maxOps)
 		if emptyLog {
-			c.Prefix = 0 // the writers race to create the log
+			c.Prefix = 0 // the writers race to create the log: only each worker's first operation is in the race
 			if c.Workers < 3 {
 				c.Workers = 3
 			}
+			c.Ops, c.Rounds = 2, 5
 		}
 		return c
 	}
